@@ -223,4 +223,5 @@ def main(tier):
 
 
 def replay(path):
-    print(open(path).read()[:3000]); return 0
+    import sys
+    return common.generic_replay(sys.modules[__name__], path)
